@@ -3071,16 +3071,17 @@ class Choice(Set):
         except error.PyAsn1Error:
             pass
         else:
-            if isinstance(component, Choice):
-                tagSet = component.effectiveTagSet
-            else:
-                tagSet = component.tagSet
+            # by position: a nested CHOICE with nothing chosen yet has no
+            # effective tag to be addressed by
             if isinstance(component, base.ConstructedAsn1Type):
-                myClone.setComponentByType(
-                    tagSet, component.clone(cloneValueFlag=cloneValueFlag)
+                myClone.setComponentByPosition(
+                    self._currentIdx,
+                    component.clone(cloneValueFlag=cloneValueFlag)
                 )
             else:
-                myClone.setComponentByType(tagSet, component.clone())
+                myClone.setComponentByPosition(
+                    self._currentIdx, component.clone()
+                )
 
     def getComponentByPosition(self, idx, default=noValue, instantiate=True):
         __doc__ = Set.__doc__
